@@ -24,7 +24,7 @@ for p in props:
         na.append({"property_id": p, "reason": c.get("na_reason", "check not built yet (construction in progress; see DESIGN.md §5/§7)")})
 m = {
     "version": 1,
-    "setup_cmd": "cd /verif/tools/extractor && CARGO_NET_OFFLINE=true cargo build --release --offline",
+    "setup_cmd": "cd /verif/tools/extractor && CARGO_NET_OFFLINE=true cargo build --release --offline && (python3 /verif/tools/kani_tables.py /repo >/dev/null 2>&1 || true)",
     "hooks": {"guard": "none", "enable": "no hooks are needed: the checks read /repo's working tree (extractor) or a scratch copy of it (Kani)",
               "baseline_off_cmd": "cd /repo && cargo test --workspace --no-fail-fast --offline", "source_commits": [], "add_only": True},
     "engines": [
